@@ -1,6 +1,7 @@
 import Capella.Lemmas.Index
 import Capella.Lemmas.IndexApi
 import Capella.Lemmas.AccessorProps
+import Capella.Lemmas.AccessorRound5
 
 /-!
 # C04 — UUIDs stay unique at load, creation and save; failed creation leaves no trace
@@ -142,6 +143,24 @@ theorem creation_with_bad_type_leaves_no_trace (fuel : Nat) (t : Tables) (row : 
     (accCreate fuel t row parent xmltag hint kw s).val = .error e ∧
     Same s (accCreate fuel t row parent xmltag hint kw s).st :=
   accCreate_bad_type fuel t row parent xmltag hint kw s e h
+
+/-- Round 5. An attribute assignment of any POD kind cannot introduce or remove a UUID: the set of ids the indexes know
+is literally the same afterwards – whatever the value, returning or raising. -/
+theorem pod_assignment_keeps_every_id (t : Tables) (o : Nat) (d : Capella.Pods.Desc)
+    (rp : List (List Char × Option (List Char))) (v : PodLit) (s : State) :
+    allIds (apiStep t (.podSetK o d rp v) s).st.ix = allIds s.ix := by
+  rw [((ixkeep_apiStep_pod t o d rp v).keep s).1]
+
+/-- Round 5. A creation through a `RoleTagAccessor` whose class lives in a module below no `xsi:type` anchor
+(`build_xtype` raises TypeError) fails before anything is reserved, appended or indexed – an instance of the theorem
+above with the generated column `CRow.built`. -/
+theorem creation_of_class_without_anchor_leaves_no_trace (fuel : Nat) (t : Tables) (row : ARow) (parent : Nat)
+    (xmltag : Option String) (kw : List (String × Slot × KwVal)) (c : CRow) (s : State)
+    (hk : row.kind = .roleTagAccessor) (hc : row.classes = [c.name]) (ht : t.cls c.name = some c) (hb : c.built = none) :
+    (accCreate fuel t row parent xmltag none kw s).val = .error .typeError ∧
+    Same s (accCreate fuel t row parent xmltag none kw s).st := by
+  apply accCreate_bad_type
+  simp [resolveXtype, guessXtype, hk, hc, ht, buildXtype, hb, bind, hit, modS, raise]
 
 end Accessor
 
